@@ -27,6 +27,8 @@ type Case struct {
 	// nothing is pending; FailAt > 0: the FailAt-th statement execution fails once.
 	To     int `json:"to,omitempty"`
 	FailAt int `json:"fail_at,omitempty"`
+	// Store != nil: the store slice (store.go): real EntRevisions with faulted database calls.
+	Store *StoreCase `json:"store,omitempty"`
 }
 
 // reuse: a program that keeps one Executor: ExecuteTo(version `to`), then ExecuteN(0) on the same value
@@ -443,7 +445,7 @@ func Run(r *report.Run) {
 	if r.Tier == "thorough" {
 		bound = 3
 	}
-	r.Rule = "every directory shape (1..3 files x 1..3 statements; any subset of the files being checkpoints) x every placement of <=bound faults over the choice points {ExecContext: ok/fail, WriteRevision: ok/fail-without-persist} and, in the crash alphabet, additionally {die before, die after} at both kinds of point, followed by clean re-runs; plus a reused-executor slice: one Executor value runs ExecuteTo(v) for every version v and then ExecuteN until nothing is pending, over every checkpoint subset, without a fault and with the k-th statement execution failing once, for every k: statements, results and final history equal those of a program building a fresh Executor per call, and without checkpoints every statement runs exactly once, in order; plus a driver-scanner slice: a recording driver that has a statement scanner of its own (BEGIN ... END blocks kept whole) over a file holding such a block, no fault and each single fault position: the statements are the driver scanner's, whole, once, in order; real migrate.Executor over a recording driver/store; non-trivial = execution with >=1 injected fault; distinct = (shape, checkpoint, alphabet, choice list)"
+	r.Rule = "every directory shape (1..3 files x 1..3 statements; any subset of the files being checkpoints) x every placement of <=bound faults over the choice points {ExecContext: ok/fail, WriteRevision: ok/fail-without-persist} and, in the crash alphabet, additionally {die before, die after} at both kinds of point, followed by clean re-runs; plus a reused-executor slice: one Executor value runs ExecuteTo(v) for every version v and then ExecuteN until nothing is pending, over every checkpoint subset, without a fault and with the k-th statement execution failing once, for every k: statements, results and final history equal those of a program building a fresh Executor per call, and without checkpoints every statement runs exactly once, in order; plus a driver-scanner slice: a recording driver that has a statement scanner of its own (BEGIN ... END blocks kept whole) over a file holding such a block, no fault and each single fault position: the statements are the driver scanner's, whole, once, in order; plus a store slice: the real Executor over the real SQLite driver and the CLI's own revision store (EntRevisions over ent), 5 shapes x every statement failing once x every placement of <=bound failing database calls of the store (reads and writes) over the runs, the database observed after every run (no claim beyond what was executed, effects in order, no repeat without a faulted write, convergence); real migrate.Executor over a recording driver/store; non-trivial = execution with >=1 injected fault; distinct = (shape, checkpoint, alphabet, choice list)"
 	r.Assumptions = []string{
 		"a failed revision write persists nothing; a simulated process death freezes both stores (deferred code may run but cannot write)",
 		"statement texts are unique per directory so the recording driver can identify them",
@@ -533,6 +535,8 @@ func Run(r *report.Run) {
 			r.Violate("", fmt.Sprintf("compound statement, fail_at=%d: %s", failAt, strings.Join(problems, " | ")), Case{Shape: []int{3, 1}, To: -1, FailAt: failAt})
 		}
 	}
+	// store slice: the CLI's own revision store with faulted reads and writes (store.go).
+	RunStore(r, bound)
 	var tot explore.Stats
 	nout := 0
 	for i := range stats {
@@ -559,6 +563,10 @@ func Replay(r *report.Run, raw json.RawMessage) {
 		return
 	}
 	c := v.Case
+	if c.Store != nil {
+		replayStore(r, c)
+		return
+	}
 	if c.To < 0 {
 		problems := compound(c.FailAt)
 		r.Case(fmt.Sprint(c), true)
